@@ -190,6 +190,34 @@ fn main() {{
 """
 
 
+def serde_attr_program():
+    """helper attributes of a requested derive given through soa_attr: they must follow the derive they belong to on the
+    generated type, and several attributes of the same name on one kind must all arrive"""
+    return """#![allow(dead_code)]
+#[macro_use] extern crate soa_derive;
+use soa_derive::StructOfArray;
+use serde::{Serialize, Deserialize};
+#[derive(StructOfArray, Clone, Debug, PartialEq, Serialize, Deserialize)]
+#[soa_derive(Debug, PartialEq, Serialize, Deserialize)]
+#[soa_attr(Vec, serde(rename_all = "UPPERCASE"))]
+#[soa_attr(Vec, serde(deny_unknown_fields))]
+#[soa_attr(Vec, cfg_attr(all(), derive(Clone)))]
+#[soa_attr(Vec, cfg_attr(all(), derive(Eq)))]
+pub struct P { pub a: u32, pub b: u8 }
+fn needs<T: Clone + Eq>() {}
+fn main() {
+    needs::<PVec>();
+    let mut v = PVec::new();
+    v.push(P { a: 1, b: 2 });
+    let json = serde_json::to_string(&v).expect("serialize");
+    if !(json.contains(r#""A""#) && json.contains(r#""B""#)) { println!("FAIL serde-attr-first rename_all did not arrive: {}", json); }
+    if serde_json::from_str::<PVec>(r#"{"A":[1],"B":[2],"C":[3]}"#).is_ok() { println!("FAIL serde-attr-second deny_unknown_fields did not arrive"); }
+    if serde_json::from_str::<PVec>(r#"{"A":[1],"B":[2]}"#).ok() != Some(v) { println!("FAIL serde-attr-roundtrip"); }
+    println!("DONE serde-attr");
+}
+"""
+
+
 def cases(tier, seed):
     rng = random.Random(seed)
     subsets = all_closed_subsets()
